@@ -1,16 +1,13 @@
 SPECIFICATION GSpec
 CONSTANTS
   Sess = {"s1"}
-  Reqs = {"r1","r2"}
-  Gets = {"g1"}
-  Prime <- PrimeAll
-  Store = TRUE
-  Json = FALSE
-  Stateless = FALSE
-  MaxEmit = 1
+  Reqs = {"r1"}
+  Gets = {"g1","g2"}
+  Cfgs <- CfgStoreBoth
+  MaxEmit = 2
   MaxSreq = 0
   MaxSa = 0
-  Gates = FALSE
+  Gates = TRUE
 VIEW MCView
 INVARIANTS ResumeExact IdsDense IdStable StoreBeforeDeliver CompleteAtEnd CompleteAtRest FinalObtainable RefusedOnlyOnConflict ResponseOnOwnExchange NestedRouting NoCrossSession RoutingEntryLifecycle LockDiscipline
 CHECK_DEADLOCK FALSE
